@@ -11,7 +11,8 @@ from pyvc.verify import Contract
 
 from .jobfs import JOB, PRJ, JobCtx, SSP, inv_job, mk_job, mk_project, mk_spdict, spv_of
 
-GETTERS = (f"{JOB}.Job.id", f"{JOB}.Job.path", f"{JOB}.Job._statepoint_filename", f"{PRJ}.Project.workspace", f"{PRJ}.Project.path")
+GETTERS = (f"{JOB}.Job.id", f"{JOB}.Job.path", f"{JOB}.Job._statepoint_filename", f"{PRJ}.Project.workspace", f"{PRJ}.Project.path",
+           f"{JOB}.Job._initialize_lazy_properties", f"{JOB}.Job.project", f"{JOB}.Job.__str__", f"{JOB}.Job.fn", f"{PRJ}.Project.fn")
 
 
 def jd_frame(fs0, fs, p, me):
